@@ -30,6 +30,13 @@ def parse_frac(s):
     return Fraction(int(a), int(b))
 
 
+
+def ensure_driver():
+    """the commands of C10/C18 live in their own executable (lean/HvsrVerif/Drv/C10.lean); build it under the shared lock"""
+    rc, log = lake(["build", EXE])
+    if rc != 0:
+        raise InfraError("driver build failed:\n" + log[-3000:])
+
 # ----------------------------------------------------------------------------------------------
 # (i) split
 def gen_split_case(rng, i):
@@ -96,13 +103,15 @@ def impl_split(case):
     try:
         ws = TimeSeries(ramp, dt).split(Lf)
         out["ts"] = [digest(w.amplitude) for w in ws]
-        out["contig"] = all(np.array_equal(w.amplitude, np.arange(w.amplitude[0], w.amplitude[0] + len(w.amplitude))) for w in ws)
+        out["contig"] = all(len(w.amplitude) > 0 and np.array_equal(w.amplitude, np.arange(w.amplitude[0], w.amplitude[0] + len(w.amplitude))) for w in ws)
         out["dt_kept"] = all(w.dt_in_seconds == dt for w in ws)
         out["fresh"] = not any(np.shares_memory(w.amplitude, ramp) for w in ws)
     except ValueError:
         out["ts"] = "err value"
     except ZeroDivisionError:
         out["ts"] = "err zerodiv"
+    except Exception as e:   # anything else is reported as a disagreement, not a crash of the check
+        out["ts"] = "err " + type(e).__name__
     if case.get("three"):
         deg = 37.5
         rec = SeismicRecording3C(TimeSeries(ramp, dt), TimeSeries(ramp + n, dt), TimeSeries(-ramp, dt), degrees_from_north=deg,
@@ -118,6 +127,8 @@ def impl_split(case):
             out["3c"] = "err value"
         except ZeroDivisionError:
             out["3c"] = "err zerodiv"
+        except Exception as e:
+            out["3c"] = "err " + type(e).__name__
     return out
 
 
@@ -161,6 +172,16 @@ def check_split(ctx, case, im, mo):
     amb = ambiguous(x)
     if kex != math.floor(x):
         ctx.violation("model-intervals-exact", rp, found_input=True, seam="driver intervals vs python Fraction")
+    # the property sentence evaluated on the implementation with the exact k (names the failing sentence first)
+    sp = spec_split(kex, n)
+    got = im["ts"] if isinstance(im["ts"], str) else [[w[0], w[1]] for w in im["ts"]]
+    if not amb:
+        ctx.supporting["spec_split_cases"] = ctx.supporting.get("spec_split_cases", 0) + 1
+        if got != sp:
+            clause = "exact-multiple-counts-in-full" if (x.denominator == 1 and not isinstance(got, str) and not isinstance(sp, str)
+                                                         and len(got) > 0 and got[0][1] != sp[0][1]) else "windows-tile-the-record"
+            ctx.violation(clause, dict(rp, spec=sp if isinstance(sp, str) else sp[:4], k_exact=kex), seam="TimeSeries.split vs exact rational k")
+            return
     # correspondence code <-> model
     mo_ts = m if isinstance(m, str) else m["ws"]
     if im["ts"] != mo_ts:
@@ -170,16 +191,8 @@ def check_split(ctx, case, im, mo):
             ctx.violation("windows-tile-the-record", rp, seam="TimeSeries.split vs Model.Split.split")
         return
     ctx.traces += 1
-    # property sentences evaluated on the implementation with the exact k
     if amb:
         ctx.count("ambiguous_L_fs_excluded_from_exactness")
-        return
-    sp = spec_split(kex, n)
-    got = im["ts"] if isinstance(im["ts"], str) else [[w[0], w[1]] for w in im["ts"]]
-    ctx.supporting["spec_split_cases"] = ctx.supporting.get("spec_split_cases", 0) + 1
-    if got != sp:
-        clause = "exact-multiple-counts-in-full" if x.denominator == 1 else "k-is-the-number-of-whole-intervals"
-        ctx.violation(clause, dict(rp, spec=sp if isinstance(sp, str) else sp[:4], k_exact=kex), seam="TimeSeries.split vs exact rational k")
         return
     if not isinstance(im["ts"], str):
         ok = im["contig"] and im["dt_kept"] and all(w[2] == w[0] + w[1] - 1 for w in im["ts"])
@@ -301,6 +314,8 @@ def impl_pre(case):
             err = "err value"
         except ZeroDivisionError:
             err = "err zerodiv"
+        except Exception as e:
+            err = "err " + type(e).__name__
     return recs, out, err, tr
 
 
@@ -478,6 +493,7 @@ def run(ctx):
     ctx.trusted += ["scipy.signal.butter/sosfiltfilt (zero-phase property not proved; the filter is an arbitrary function in the theorems)",
                     "scipy.signal.detrend (cross-checked against the model's closed-form least squares on every run)",
                     "n_windows = int(n_samples / k) is a float division in the code and an integer quotient in the model (equal for n < 2^52)"]
+    ensure_driver()
     rng = np.random.default_rng(ctx.seed)
     cases = [dict(c["case"], corpus=True) for c in load_corpus("C10")]
     ctx.count("corpus_cases", len(cases))
